@@ -500,12 +500,7 @@ func (f *Frame) typeAssert(bi *BInfo, x *ssa.TypeAssert) {
 	var val T
 	var ok string
 	if types.IsInterface(x.AssertedType) {
-		okc := g.freshConst("implements:"+f.tag+":"+x.Name(), "Bool")
-		g.assert(sImp(okc, sNot(sEq(v.S, "0"))))
-		if iface, isI := x.AssertedType.Underlying().(*types.Interface); isI && iface.Empty() {
-			g.assert(sEq(okc, sNot(sEq(v.S, "0"))))
-		}
-		ok = okc
+		ok = g.implements(v.S, x.AssertedType)
 		val = mk(sIte(ok, v.S, "0"), "Int", x.AssertedType)
 	} else {
 		box, unbox := g.boxFns(x.AssertedType)
